@@ -97,6 +97,12 @@ func c01Present(c *core.C, m Mutant, origin string, keys map[string]ed25519.Publ
 		if !acc && iters != 0 {
 			c.Violate("datalog-before-rejection", fmt.Sprintf("%d Datalog iterations ran before the token was rejected", iters), wit())
 		}
+		if m.Class == "M13-library-token" && kn == "true-root" && !acc {
+			// produced by build / append / seal / reload alone: accepted under the matching root,
+			// whatever the reference thinks of the bytes the library made
+			c.Violate("library-made-token-rejected", fmt.Sprintf("%s was rejected at %s: %s (reference: chain ok=%v %s)", origin, stage, errText, v.chainOK, v.why), wit())
+			continue
+		}
 		switch {
 		case !v.decodable:
 			c.Count("undecidable_by_reference", 1)
@@ -137,6 +143,31 @@ func c01Family(c *core.C) {
 	}
 	if !f.randomHistory(c, 3+r.Intn(4), keyID, mk) {
 		return
+	}
+	if c.Idx%3 == 0 {
+		// deep fork: one parent carrying 3, 5, 6 or 7 attenuation blocks is attenuated twice;
+		// both children (and the parent) are library-made tokens and must verify
+		p := 0
+		for q, l := range f.Tokens {
+			if !l.T.Sealed && len(l.T.Blocks) > len(f.Tokens[p].T.Blocks) {
+				p = q
+			}
+		}
+		want := []int{3, 5, 6, 7}[c.Idx/3%4]
+		for len(f.Tokens[p].T.Blocks)-1 < want {
+			if _, err := f.Append(p, mk()); err != nil {
+				c.Violate("derivation-refused", err.Error(), nil)
+				return
+			}
+			p = len(f.Tokens) - 1
+		}
+		for k := 0; k < 2; k++ {
+			if _, err := f.Append(p, mk()); err != nil {
+				c.Violate("derivation-refused", err.Error(), nil)
+				return
+			}
+		}
+		c.Count("deep_fork_families", 1)
 	}
 	envs := []*wire.Token{}
 	for _, l := range f.Tokens {
@@ -187,7 +218,7 @@ func c01Family(c *core.C) {
 	// accept obligation: every library-made token, and fresh chains written by R3
 	for i, l := range f.Tokens {
 		ser, _ := l.T.B.Serialize()
-		c01Present(c, Mutant{Class: "M13-library-token", Bytes: ser, MustAccept: true}, fmt.Sprintf("family token #%d", i), map[string]ed25519.PublicKey{"true-root": root}, keyID, seen)
+		c01Present(c, Mutant{Class: "M13-library-token", Bytes: ser, MustAccept: true}, fmt.Sprintf("family token #%d of history %v", i, f.Ops), map[string]ed25519.PublicKey{"true-root": root}, keyID, seen)
 	}
 	fresh := freshChain(c.Seed, fmt.Sprintf("c01-%d", c.Idx), f.Tokens[0].T.Priv, []ast.Block{mk(), mk(), mk()}, keyID, r.Intn(2) == 0)
 	c01Present(c, Mutant{Class: "M13-fresh-chain-by-reference-writer", Bytes: fresh, MustAccept: true}, "R3 writer", map[string]ed25519.PublicKey{"true-root": root, "random": rpub}, keyID, seen)
@@ -291,13 +322,13 @@ func c01Run(c *core.C) {
 	}
 }
 
-var c01Classes = []string{"M1-flip-block", "M1-flip-nextkey", "M1-flip-signature", "M1-flip-proof", "M2-swap-nextkeys", "M3-rekey-alone", "M3-rekey-resign-suffix", "M4-swap-blocks", "M4-delete-block", "M4-duplicate-block", "M5-truncate-original-proof", "M5-truncate-attacker-secret", "M5-truncate-attacker-seal", "M6-splice-same-root", "M6-splice-other-root", "M7-proof-kind-swap", "M7-proof-zero-length", "M7-seal-over-block-only", "M8-resigned-by-attacker-root", "M9-algorithm", "M10-key-length", "M10-signature-length", "M10-proof-length", "M11-append-with-guessed-key", "M11-append-to-sealed-keep-seal", "M12-raw-bitflip", "M13-reencode", "M13-holder-seals", "M13-holder-appends", "M13-library-token", "M13-fresh-chain-by-reference-writer"}
+var c01Classes = []string{"M1-flip-block", "M1-flip-nextkey", "M1-flip-signature", "M1-flip-proof", "M2-swap-nextkeys", "M3-rekey-alone", "M3-rekey-resign-suffix", "M4-swap-blocks", "M4-delete-block", "M4-duplicate-block", "M5-truncate-original-proof", "M5-truncate-attacker-secret", "M5-truncate-attacker-seal", "M6-splice-same-root", "M6-splice-other-root", "M7-proof-kind-swap", "M7-proof-zero-length", "M7-seal-over-block-only", "M7-secret-built-from-announced-key", "M7-seal-built-from-announced-key","M8-resigned-by-attacker-root", "M9-algorithm", "M10-key-length", "M10-signature-length", "M10-proof-length", "M11-append-with-guessed-key", "M11-append-to-sealed-keep-seal", "M12-raw-bitflip", "M13-reencode", "M13-holder-seals", "M13-holder-appends", "M13-library-token", "M13-fresh-chain-by-reference-writer"}
 
 func init() {
 	core.Register(&core.Prop{
 		ID:    "C01",
 		Level: "fault_enumeration",
-		Rule: "case 0: the sample corpus (every .bc file under its published root key and a random key, and the full mutation catalogue on every sample whose chain is valid). cases 1..N: a seeded token family (build + 3-6 append/seal/re-load steps, optional root key id); two members get the whole mutation catalogue M1-M13 of DESIGN appendix C (bit flips in every signed field and the proof, key/signature swaps, re-keying with and without re-signing the suffix, block swap/rotate/delete/duplicate, truncation with original/attacker/sibling proofs, splices from same-root and other-root tokens, proof kind swaps, seal over block bytes only, re-signing by an attacker root, algorithm numbers, key/signature/proof lengths, appending to sealed tokens, raw bit flips and truncations), each mutant presented under 4 keys (true root, stranger root, random, unrelated attacker), half of the time through the key-id map. Last cases: EVERY single-bit flip and EVERY prefix of one serialized token. Each mutant is decided by the independent chain verifier R3; acceptance = AuthorizerFor returned an authorizer; the run.iter hook counter must not move before a rejection. " +
+		Rule: "case 0: the sample corpus (every .bc file under its published root key and a random key, and the full mutation catalogue on every sample whose chain is valid). cases 1..N: a seeded token family (build + 3-6 append/seal/re-load steps, optional root key id; every third family also grows one chain to 3, 5, 6 or 7 attenuation blocks and attenuates that parent twice - every member of the family, the forked siblings included, must be accepted under the matching root); two members get the whole mutation catalogue M1-M13 of DESIGN appendix C (bit flips in every signed field and the proof, key/signature swaps, re-keying with and without re-signing the suffix, block swap/rotate/delete/duplicate, truncation with original/attacker/sibling proofs, splices from same-root and other-root tokens, proof kind swaps, seal over block bytes only, re-signing by an attacker root, algorithm numbers, key/signature/proof lengths, appending to sealed tokens, raw bit flips and truncations), each mutant presented under 4 keys (true root, stranger root, random, unrelated attacker), half of the time through the key-id map. Last cases: EVERY single-bit flip and EVERY prefix of one serialized token. Each mutant is decided by the independent chain verifier R3; acceptance = AuthorizerFor returned an authorizer; the run.iter hook counter must not move before a rejection. " +
 			"Non-trivial = distinct (mutant bytes, key) pairs that R3 decodes canonically.",
 		Assumptions: []string{"ed25519 itself is trusted (both sides call crypto/ed25519.Verify)", "a mutant R3 cannot decode canonically carries only the no-panic obligation", "R3 accepting while the library rejects is a violation only for library-made tokens and R3-written spec-conformant chains"},
 		NumCases: func(tier string) int {
